@@ -184,15 +184,7 @@ func runC04(cfg config) {
 			_, err = fhirpath.Compile("1", copts...)
 		}
 		if err != nil {
-			msg := err.Error()
-			switch {
-			case strings.Contains(msg, "already exists"):
-				return "(inl 2%N)"
-			case strings.Contains(msg, "ransform"):
-				return "(inl 3%N)"
-			default:
-				return "(inl 1%N)"
-			}
+			return "(inl 1%N)" // the errors of all failing options are joined: only "failed" is compared
 		}
 		var vs []string
 		for _, p := range probes {
